@@ -95,7 +95,13 @@ func init() {
 				case isErr:
 					r.Check(v == 2, "diffCmd.Execute/return-on-error", ret.Pos(), "return under %s yields %d (must be 2: comparison could not be completed)", why, v)
 				case hadDiff:
-					r.Check(v == 1, "diffCmd.Execute/return-on-diff", ret.Pos(), "return under hadDiff yields %d (must be 1)", v)
+					okS := false
+					for _, g := range gs {
+						if sv := fi.varOf(g.Expr); sv != nil && sv.Name() == "success" && !g.Neg && g.Kind == "bool" {
+							okS = true
+						}
+					}
+					r.Check(v == 1 && okS, "diffCmd.Execute/return-on-diff", ret.Pos(), "return under hadDiff yields %d (must be 1) and is dominated by success [%v]: a failed package takes precedence over a difference", v, okS)
 				default:
 					r.Check(v == 0, "diffCmd.Execute/return-clean#"+itoa(i), ret.Pos(), "return without error or difference yields %d (must be 0)", v)
 				}
@@ -361,6 +367,63 @@ func init() {
 					}
 				}
 				r.Check(ok, "detectOutputDir/conflicting-dirs-rejected", dd.Decl.Pos(), "files spread over several directories are an error, not a guess")
+			}
+		})
+
+	register("C17.R5", "no output for packages without injectors: the bytes stored as Content are frame's result (empty when nothing was generated), optionally formatted; anything prepended (the header) is added only when that result is non-empty",
+		func(c *Ctx, r *R) {
+			g := r.Need(c.Fn(c.W, "Generate"), "Generate")
+			if g == nil {
+				return
+			}
+			var src *types.Var
+			ast.Inspect(g.Decl.Body, func(nd ast.Node) bool {
+				if as, ok := nd.(*ast.AssignStmt); ok {
+					for i, l := range as.Lhs {
+						if f := g.selField(l); f != nil && f.Name() == "Content" && i < len(as.Rhs) {
+							src = g.varOf(as.Rhs[i])
+						}
+					}
+				}
+				return true
+			})
+			if src == nil {
+				r.Bad("Content-source", g.Decl.Pos(), "Content is not assigned from a local variable")
+				return
+			}
+			fromFrame := false
+			for _, d := range g.defs[src] {
+				k := "Content-source/def:" + exprShort(d.rhs)
+				switch {
+				case d.kind == "define" && g.isCall(d.rhs, pathW+".gen.frame") != nil:
+					fromFrame = true
+					r.Ok(k, d.node.Pos(), "starts as frame's result")
+				case g.isBuiltin(d.rhs, "append") != nil:
+					ok := false
+					for _, gd := range g.Guards(d.node) {
+						if x, ne, o := g.lenTest(gd); o && ne && g.varOf(x) == src {
+							ok = true
+						}
+					}
+					r.Check(ok, "Content-source/prepend-only-when-non-empty", d.node.Pos(), "bytes are prepended/appended to the generated source only when it is non-empty (otherwise a package without injectors would get a file)")
+				default:
+					// formatted source: must derive from format.Source(src)
+					okF := false
+					if dd := g.defOf(d.rhs); dd != nil {
+						if fc := g.isCall(dd.rhs, "go/format.Source"); fc != nil && g.varOf(fc.Args[0]) == src {
+							okF = true
+						}
+					}
+					r.Check(okF, k, d.node.Pos(), "replaced only by its own gofmt'd form")
+				}
+			}
+			r.Check(fromFrame, "Content-source/frame", g.Decl.Pos(), "the stored bytes originate from gen.frame")
+			// frame returns nothing when no injector wrote to the buffer
+			if t := traceOf(c, r, "gen.frame"); t != nil {
+				r.Check(strings.HasPrefix(t.text, "ALT[(recv.buf.Len()==0)]{ «RETURN» }{ }"), "frame/empty-when-nothing-generated", t.fi.Decl.Pos(), "frame returns nothing when the body buffer is empty")
+				fr := c.Fn(c.W, "gen.frame")
+				first := fr.returnsOf()[0]
+				r.Check(fr.isNilIdent(first.Results[0]), "frame/empty-result-is-nil", first.Pos(), "the empty result is nil")
 			}
 		})
 
